@@ -17,7 +17,7 @@ def register(fmt, builder, features, kind, ext):
 def _load_optional():
     import importlib
     import os
-    for mod in ("odf", "htmlfam", "rtf", "pdfw", "plain", "ole"):
+    for mod in ("odf", "htmlfam", "rtf", "pdfw", "plain", "mboxdoc", "ole"):
         if mod == "ole" and not (os.environ.get("VERIF_WITH_OLE") or os.path.exists(os.path.join(os.path.dirname(__file__), "ole.ready"))):
             continue   # the OLE2 writers join the registry once they are finished (marker file vlib/gen/ole.ready)
         try:
